@@ -19,7 +19,7 @@ func init() {
 		ID:          "C19",
 		Explanation: "Decided: (magic) the hint byte 0x08 can enter the output stream only through Hint.WriteTo — the string-literal encoder escapes it, no template, prelude file or identifier encoder can contain it; (codec) WriteTo and ReadHint agree on the 3-byte header (magic, big-endian 16-bit size) and on the consumed length, Pack and Unpack agree on the (flag, type) table and Filter.Write handles every packed type; (pos) translateStmt sets the position before any emission, every write flushes a pending position hint first, and CatchOutput flushes before returning its buffer; (filter) Filter.Write counts lines and columns on exactly the bytes it forwards and skips exactly the length ReadHint reports, prelude/inc.js mappings are offset by the current line and column; the minifier copies hints verbatim by the same length. NOT decided: column arithmetic of esbuild's maps, mapping completeness, behaviour when a Write call splits a hint (documented precondition).",
 		Assumptions: []string{"callers never split a hint across Write calls (documented precondition of the filter)", "net/url.QueryEscape percent-encodes control bytes"},
-		Rules:       []RuleFunc{ruleC19Magic, ruleC19Codec, ruleC19Pos, ruleC19Filter},
+		Rules:       []RuleFunc{ruleC19Magic, ruleC19Codec, ruleC19Pos, ruleC19Filter, ruleC19WriteJSSource, ruleC19FirstLine},
 	})
 }
 
@@ -370,8 +370,7 @@ func ruleC19Filter(c *ctx.Ctx, r *core.Reporter) {
 	r.Check(strings.Contains(s, "n+=length"), "filter:reports-consumed", c.Pos(fw.Pos()), "hint bytes count as consumed input (io.Writer contract: n == len(p) on success)")
 	r.Check(strings.Contains(s, "f.goMappingCallback(f.line+1,f.column,"), "filter:mapping-position", c.Pos(fw.Pos()), "a mapping is recorded at the current (1-based line, 0-based column) output position")
 	if jc := c.FuncDecl(smPkg, "Filter.defaultJSMappingCallback"); jc != nil {
-		t := squash(nodeString(c, jc.Body))
-		r.Check(strings.Contains(t, "ifisolated.GeneratedLine==0{isolated.GeneratedColumn+=f.column}isolated.GeneratedLine+=f.line"), "filter:js-offset", c.Pos(jc.Pos()), "mappings of prelude/inc.js chunks are shifted by the current line; the column only on their first line")
+		r.Check(hasGoPattern(jc.Body, `if µm.GeneratedLine == µ_ { µm.GeneratedColumn += µf.column }; µm.GeneratedLine += µf.line`), "filter:js-offset", c.Pos(jc.Pos()), "mappings of prelude/inc.js chunks are shifted by the current line; the column only on their first line (which line number is the first is decided by C19.first-line)")
 	}
 	// WriteJS computes mappings before writing the code (so that f.line/f.column are the chunk's start)
 	if wj := c.FuncDecl(smPkg, "Filter.WriteJS"); wj != nil {
